@@ -1200,8 +1200,11 @@ class ModelBuilder:
                     return None
             return current  # type: ignore[return-value]
         else:
-            # Search from project root
-            for task in project.tasks:
+            # Search from project root: a top-level task with that id wins; only if
+            # there is none fall back to the first task anywhere with that local id
+            candidates = [t for t in project.tasks if t.parent is None]
+            candidates += [t for t in project.tasks if t.parent is not None]
+            for task in candidates:
                 if task.id == parts[0]:
                     if len(parts) == 1:
                         return task  # type: ignore[return-value]
